@@ -512,6 +512,8 @@ func chainManglers(chain string) []transform.Mangler {
 			&transform.SetSliceMangler{}}
 	case "setslice":
 		return []transform.Mangler{&transform.SetSliceMangler{}}
+	case "stringcast":
+		return []transform.Mangler{&transform.StringCastingMangler{}}
 	case "tagcopy":
 		return []transform.Mangler{&tagformat.TagCopyingMangler{SrcTag: common.DialsTagName, NewTag: "json"}}
 	}
@@ -563,7 +565,32 @@ func runTypesDecoder(c TypesCase) vrt.Verdict {
 
 // ---- mangler chains on their own ----------------------------------------------------
 
-var manglerChains = []string{"flatten", "alias+flatten", "anon", "setslice", "textunmarshal", "ez", "ez-snake", "anon+ez-snake", "tagcopy"}
+var manglerChains = []string{"flatten", "alias+flatten", "anon", "setslice", "textunmarshal", "ez", "ez-snake", "anon+ez-snake", "tagcopy", "stringcast", "stringcast"}
+
+// fillStringCast fills the value StringCastingMangler produced for pt: every
+// field is a *string; the top-level leaves get the documented spelling of a
+// seeded value of their ORIGINAL type (nested structs stay nil: without the
+// flatten mangler the string caster has no spelling for them).
+func fillStringCast(mv reflect.Value, pt reflect.Type, c chooser) int {
+	n := 0
+	for i := 0; i < mv.NumField() && i < pt.NumField(); i++ {
+		of := pt.Field(i)
+		if mv.Type().Field(i).Name != of.Name || mv.Field(i).Type() != reflect.TypeOf((*string)(nil)) {
+			continue
+		}
+		if !isLeafType(of.Type) || !c.chosen(of.Name) {
+			continue
+		}
+		val := shape.MakeValue(stripPointers(of.Type), c.value(of.Name), plain)
+		txt, ok := renderText(val, textStyle{quoteStrings: c.value(of.Name)%2 == 0}, true)
+		if !ok {
+			txt = "1"
+		}
+		mv.Field(i).Set(reflect.ValueOf(&txt))
+		n++
+	}
+	return n
+}
 
 func runTypesManglers(c TypesCase) vrt.Verdict {
 	_, pt, _, dv := buildCase(c)
@@ -585,7 +612,11 @@ func runTypesManglers(c TypesCase) vrt.Verdict {
 		if err != nil {
 			return
 		}
-		o.fed = fillGeneric(mv, "", chooser{c.Fill, "feed", c.SetPct})
+		if c.Chain == "stringcast" {
+			o.fed = fillStringCast(mv, pt, chooser{c.Fill, "feed", c.SetPct})
+		} else {
+			o.fed = fillGeneric(mv, "", chooser{c.Fill, "feed", c.SetPct})
+		}
 		stage = "ReverseTranslate"
 		got, err = tf.ReverseTranslate(mv)
 	})
@@ -679,8 +710,8 @@ func TestC16TypesDecoders(t *testing.T) {
 func TestC16TypesManglers(t *testing.T) {
 	vrt.Check(t, vrt.Prop[TypesCase]{
 		ID: "C16", Name: "types-manglers",
-		Rule: typesRuleCommon + "(plus arrays of named elements and slices / maps of structs). Chain uniform over the shipped mangler chains (DefaultFlatten, alias + flatten, AnonymousFlatten, SetSlice, TextUnmarshaler, the two ez chains, AnonymousFlatten + ez, TagCopying); " +
-			"the pointerified type is translated, the mangled value filled leaf by leaf with seeded values of the mangled field types, and translated back; " +
+		Rule: typesRuleCommon + "(plus arrays of named elements and slices / maps of structs). Chain drawn from the shipped manglers and chains (DefaultFlatten, alias + flatten, AnonymousFlatten, SetSlice, TextUnmarshaler, the two ez chains, AnonymousFlatten + ez, TagCopying, StringCasting on its own); " +
+			"the pointerified type is translated, the mangled value filled leaf by leaf with seeded values of the mangled field types (StringCasting: with the documented spelling of a seeded value of the ORIGINAL leaf type), and translated back; " +
 			"oracle: Translate and ReverseTranslate return, without panic, either an error or a value of the pointerified type; non-trivial = named non-scalar leaf present and at least one mangled leaf filled; distinct = distinct case JSON",
 		Assumptions: typesAssumptions,
 		Gen: func(t *rapid.T) TypesCase {
